@@ -31,7 +31,9 @@ def validate(sid):
         run = meta["demo_run"]
         rc0, out0 = sh(run, wt)
         res["demo_passes_without_patch"] = rc0 == 0
-        rc, out = sh(f"git apply {d}/patch.diff", wt)
+        patch = "patch.ported.diff" if os.path.exists(os.path.join(d, "patch.ported.diff")) else "patch.diff"
+        res["patch_used"] = patch
+        rc, out = sh(f"git apply {d}/{patch}", wt)
         if rc:
             return dict(res, error="patch does not apply: " + out)
         rc1, out1 = sh(run, wt)
